@@ -379,7 +379,7 @@ def all_strings(alphabet, maxlen):
         for tup in itertools.product(alphabet, repeat=n):
             yield "".join(tup)
 
-WORDS = ["not", "in", "true", "False", "AND", "OR", "beginWith", "endWith", "min", "f", "a", "ab", "1", "2.5", "10", "0.10",
+WORDS = ["TRUE", "tRuE", "FALSE", "Truex", "not", "in", "true", "False", "AND", "OR", "beginWith", "endWith", "min", "f", "a", "ab", "1", "2.5", "10", "0.10",
          "+", "-", "*", "/", "%", "<<", ">>", "<<=", "==", "!=", "<=", ">=", "&&", "||", "=", "+=", "&", "|", "^", "!", "++", "--",
          "?", ":", "(", ")", "[", "]", "{", "}", ",", ";", "'s'", "\"t\"", " ", "  ", "\t", "\r", "\n", "é", "x.y", "_", "1e5", "1..2", "'", "\"", "@", "#"]
 
